@@ -145,6 +145,27 @@ func c15Check(c c15Case, res *engine.JobResult) {
 				return
 			}
 		}
+	case "variants-window-aggregate":
+		_, counts, nseq := c13PerSeq(c.Base)
+		if counts == nil {
+			return
+		}
+		want := map[string]int{}
+		for m, k := range counts {
+			p, ok := c15Pos(m, c.Feats)
+			if !ok {
+				res.Count("aggregate_windows_with_join_straddling_codon_not_judged", 1)
+				return
+			}
+			if (s == 0 || p >= s) && (e == 0 || p <= e) {
+				want[m] = k
+			}
+		}
+		tmp := &engine.JobResult{}
+		c13Check(c13Case{c.Opt, 0}, want, nseq, tmp)
+		if len(tmp.Violations) > 0 {
+			bad("--aggregate --start %d --end %d: %s", s, e, tmp.Violations[0].Msg)
+		}
 	case "variants-window":
 		bm, border, okb := parseVariantRows(ob.Out)
 		om, oorder, oko := parseVariantRows(oo.Out)
@@ -210,7 +231,7 @@ func init() {
 	register(&Prop{
 		ID:    "C15",
 		Level: "model_checking",
-		Rule: "bounded-exhaustive metamorphic relations on the real code: for 12 representative SAM files, every window 1<=s<=e<=L and each bound alone: toMultiAlign --start/--end (pad off/on) = columns of the unrestricted run; toPairAlign --start/--end = the unrestricted pair cut by reference columns; every --wrap 1..L+2 only re-breaks lines (toMultiAlign and toPairAlign); for 8 annotation layouts x query sets (substitutions, deletions) and for sam variants: --start s / --end e alone or together (every window on an 18-base genome) = the unrestricted list filtered by s<=p<=e, also under --aggregate; through the real binary: legacy --trim/--trimstart/--trimend = --start/--end for every window (mixing refused), and `variants` reading the alignment from a pipe = reading the file. " +
+		Rule: "bounded-exhaustive metamorphic relations on the real code: for 12 representative SAM files, every window 1<=s<=e<=L and each bound alone: toMultiAlign --start/--end (pad off/on) = columns of the unrestricted run; toPairAlign --start/--end = the unrestricted pair cut by reference columns; every --wrap 1..L+2 only re-breaks lines (toMultiAlign and toPairAlign); for 8 annotation layouts x query sets (substitutions, deletions) and for sam variants: --start s / --end e alone or together (every window on an 18-base genome) = the unrestricted list filtered by s<=p<=e, and under --aggregate = the filtered per-sequence lists counted; through the real binary: legacy --trim/--trimstart/--trimend = --start/--end for every window (mixing refused), and `variants` reading the alignment from a pipe = reading the file. " +
 			"A case is one (input, relation, option value); non-trivial = both runs succeeded; each generated once",
 		Assumptions: []string{
 			"p of an aa: record = genomic position of the codon's first base in coding direction; rows containing a codon that straddles a join are not judged for the window relation",
@@ -317,18 +338,20 @@ func init() {
 					if format == "gff" {
 						anno = renderGFF(c04Genome, l.Feats, true, true)
 					}
-					for _, agg := range []bool{false, true} {
-						if agg {
-							continue // the aggregate relation is covered through C13 + the per-sequence window relation
-						}
-						base := Call{Cmd: "variants", Msa: fastaOf(recs...), RefID: "ref", Anno: anno, AnnoSuffix: format, AppendSNP: (li+fi)%2 == 0, Threads: 2}
-						windows(len(c04Genome), func(s, e int) {
-							o := base
-							o.Start, o.End = s, e
-							c15Check(c15Case{Relation: "variants-window", Base: base, Opt: o, Feats: l.Feats}, res)
-							res.States++
-						})
-					}
+					base := Call{Cmd: "variants", Msa: fastaOf(recs...), RefID: "ref", Anno: anno, AnnoSuffix: format, AppendSNP: (li+fi)%2 == 0, Threads: 2}
+					windows(len(c04Genome), func(s, e int) {
+						o := base
+						o.Start, o.End = s, e
+						c15Check(c15Case{Relation: "variants-window", Base: base, Opt: o, Feats: l.Feats}, res)
+						res.States++
+					})
+					// --aggregate with a window = the unrestricted per-sequence lists, filtered by position, counted
+					windows(len(c04Genome), func(s, e int) {
+						o := base
+						o.Start, o.End, o.Aggregate = s, e, true
+						c15Check(c15Case{Relation: "variants-window-aggregate", Base: base, Opt: o, Feats: l.Feats}, res)
+						res.States++
+					})
 				}
 			case "samvar":
 				feats := []Feat{{Name: "orfA", Segs: []Seg{{1, 9}}}, {Name: "orfR", Segs: []Seg{{10, 18}}, Reverse: true}}
